@@ -65,6 +65,10 @@ func (i *interpreter) intercept(fr *frame, fn *ssa.Function, args []value) (valu
 		}
 		for _, p := range noopPrefixes {
 			if strings.HasPrefix(name, p) {
+				if i.schedOn() && strings.Contains(p, "limiter.Limiter") {
+					// with goroutines the real limiter runs
+					continue
+				}
 				return zeroResults(fn), true
 			}
 		}
